@@ -255,6 +255,13 @@ def _weave_states_in_region(
                 # any other op that contains ops:
                 elif op.regions:
                     _weave_states_in_region(op, dict(), rewriter)
+                    # the ops inside may have changed accelerator states behind our back
+                    if has_accfg_effects(op):
+                        state.clear()
+                    else:
+                        for region in op.regions:
+                            for accel in find_all_acc_names_in_region(region):
+                                state.pop(accel, None)
                 # Check if the op has effects on accfg state
                 elif has_accfg_effects(op):
                     state.clear()
